@@ -1374,11 +1374,24 @@ fn run(a: &Args) {
                                             w.t3.push(("C03".into(), msg));
                                         }
                                     }
+                                    // C05 / C03: … and armed EARLY enough: the accept thread must not sleep past the earliest
+                                    // back-off deadline (the error path arms 510 ms for a 500 ms back-off: 10 ms of slack)
+                                    if !report.exited {
+                                        if let (Some(to), Some(min_left)) = (after.timeout, after.socket_deadlines.iter().flatten().min()) {
+                                            if to > *min_left + Duration::from_millis(15) {
+                                                let msg = format!("Accept::timeout is {} ms but the earliest accept back-off ends in {} ms: the accept thread sleeps past it, that listener's waiting connections are delayed", to.as_millis(), min_left.as_millis());
+                                                w.t3.push(("C05".into(), msg.clone()));
+                                                w.t3.push(("C03".into(), msg));
+                                            }
+                                        }
+                                    }
                                     // C05: an expired back-off deadline never survives an iteration
                                     if !report.exited {
                                         for (l, dl) in after.socket_deadlines.iter().enumerate() {
                                             if *dl == Some(Duration::ZERO) {
-                                                w.t3.push(("C05".into(), format!("listener {l}: its accept back-off has expired but this iteration did not re-arm it (still deregistered with a deadline)")));
+                                                let msg = format!("listener {l}: its accept back-off has expired but this iteration did not re-arm it (still deregistered with a deadline)");
+                                                w.t3.push(("C05".into(), msg.clone()));
+                                                w.t3.push(("C03".into(), msg));
                                             }
                                         }
                                     }
@@ -1840,6 +1853,12 @@ fn gen(a: &Args) {
             writeln!(w, "poll").unwrap();
             writeln!(w, "poll").unwrap();
             writeln!(w, "poll").unwrap();
+        }
+        // two listeners backing off with different deadlines, the higher token first: the poll time-out follows the EARLIEST
+        writeln!(w, "case backoff-two-deadlines workers=1 limit=4 listeners=tcp,tcp").unwrap();
+        for l in ["env inject:1:EMFILE", "connect 1", "poll", "env advance:350", "env inject:0:EMFILE", "connect 0", "poll", "poll",
+                  "env advance:160", "poll", "poll", "env advance:350", "poll", "poll", "poll"] {
+            writeln!(w, "{l}").unwrap();
         }
         // … and everything that arrived during an accept-error back-off, once it is over
         writeln!(w, "case flood-backoff workers=2 limit=60 listeners=tcp").unwrap();
